@@ -399,6 +399,12 @@ def check(ctx):
             texts = [f.describe_origin(f.origin(a), deep=3) for a in c.args]
             clos = [cid] if cid else [k for k in P.family(f.id) if "::{closure" in k]
             uses = any("type_mappings" in t for t in texts)
+            # (the predicate may ask the table any way it likes — lookup or search —: what counts is that it was handed the configured table)
+            if cid and len(c.args) > 1:
+                co_ = f.origin(c.args[1])
+                caps_ = co_[1].get("ops", []) if co_[0] == "aggr" and isinstance(co_[1], dict) else []
+                if any("type_mappings" in f.describe_origin(f.origin(a_), deep=4) for a_ in caps_):
+                    uses = True
             for k in clos:
                 g = P.fns[k]
                 for cc in g.calls:
@@ -436,7 +442,9 @@ def check(ctx):
                 seen_pred.add(cid)
                 other = sorted({short_path(cc.path) for cc in P.fns[cid].calls if cc.bb in P.fns[cid].reach_blocks
                                 and cc.name in ("contains", "contains_key", "get", "any", "all", "starts_with", "ends_with", "binary_search", "find", "position")
-                                and not (cc.name in ("contains_key", "get") and cc.generics[:2] == ["std::string::String", "std::string::String"] and "HashMap" in cc.path)})
+                                and not (cc.name in ("contains_key", "get") and cc.generics[:2] == ["std::string::String", "std::string::String"] and "HashMap" in cc.path)
+                                # (the same question asked by a linear search over the mapping's keys)
+                                and not (cc.name in ("any", "find", "position") and re.search(r"hash_map::Keys<[^>]*std::string::String, std::string::String>", " ".join(cc.generics + [cc.self_ty or ""])))})
                 if other:
                     r6.bad(V(r6.id, fid, "declared-set-narrowed-by:%s" % ",".join(other), "the predicate that removes mapped names from the declared set also asks %s: "
                              "types the mapping does not name lose their declaration" % other, c.file, c.line))
